@@ -33,9 +33,11 @@ class DictWorld(HistoryWorld):
         for w in self.widths:
             for mask in range(1 << (1 << w)):
                 self.subsets.append((w, mask))
-        self.legs = [('exhaustive', len(self.subsets)), ('main', 12000 if q else 400000)]
+        self.legs = [('exhaustive', len(self.subsets)), ('main', 12000 if q else 400000), ('ladder', 12 if q else 200)]
         self.budget = {'quick': 100, 'thorough': 1500}
         self.exhaustive = False
+
+    LADDER_DEPTHS = [64, 200, 300, 340, 380, 420, 450, 470, 500, 520, 700, 1022, 256, 320, 360, 400, 440, 460, 480, 600, 800, 1000]
 
     def get_legs(self):
         return self.legs
@@ -55,6 +57,11 @@ class DictWorld(HistoryWorld):
         if leg == 'exhaustive':
             w, mask = self.subsets[run_index]
             return {'n': w, 'mask': mask, 'vk': ['u16', 'coins', 'cell'][run_index % 3], 'exh': True}
+        if leg == 'ladder':
+            # 'every finite map': maps whose tree is as deep as the key is wide (one fork per key bit on one path - keys 100..0, 0100..0,
+            # 00100..0 ...); the cell chain is d+1 deep and d may be up to 1022
+            d = self.LADDER_DEPTHS[run_index % len(self.LADDER_DEPTHS)] + (run_index // len(self.LADDER_DEPTHS))
+            return {'n': rng.choice([1023, 1023, max(d + 1, rng.choice([600, 800]))]), 'vk': 'u16', 'steps': d + 4, 'ladder': d, 'kser': False}
         n = rng.choice([1, 2, 3, 4, 5, 7, 8, 9, 16, 31, 32, 33, 64, 255, 256, 257, 267, 512, 1000, 1023, rng.randint(1, 1023)])
         return {'n': n, 'vk': rng.choice(['u16', 'u16', 'coins', 'cell', 'i8', 'u1', 'addr', 'ref3', 'addr_any']), 'mirror': rng.random() < 0.5, 'steps': rng.choice([4, 8, 16, 40]), 'kser': rng.random() < 0.12}
 
@@ -179,8 +186,20 @@ class DictWorld(HistoryWorld):
         if st.started and ctx.cfg.get('exh'):
             return None
         rng = ctx.rng
+        if st.started and ctx.cfg.get('ladder'):
+            return None
         if not st.started:
             st.started = True
+            if ctx.cfg.get('ladder'):
+                d, n = ctx.cfg['ladder'], ctx.cfg['n']
+                keys = [1 << (n - 1 - i) for i in range(d)] + [0]
+                if rng.random() < 0.5:
+                    rng.shuffle(keys)
+                st.queue.append({'op': 'new'})
+                for k in keys:
+                    st.queue.append({'op': 'set', 'form': 'int', 'key': k, 'v': k.bit_length() * 31 & 0xFFFF})
+                st.queue.append({'op': 'serialize', 'perm': rng.getrandbits(32), 'routes': ['parse', 'load_hashmap', 'load_dict']})
+                return st.queue.pop(0)
             if ctx.cfg.get('exh'):
                 n, mask = ctx.cfg['n'], ctx.cfg['mask']
                 keys = [k for k in range(1 << n) if (mask >> k) & 1]
@@ -337,14 +356,24 @@ class DictWorld(HistoryWorld):
             if not ok or r not in (None, {}):
                 self.V(ctx, 'empty-not-none', 'load_dict', 'empty', 'store_dict(None) loads back as %r' % (r,))
             return
+        dk = ''
+        if ctx.cfg.get('ladder'):
+            d = ctx.cfg['ladder']
+            dk = '/forks-on-one-path-%s' % ('le300' if d <= 300 else 'le450' if d <= 450 else 'gt450')
+            ctx.probe('deep-map' + dk)
         if not ok:
             # representable at all?
+            import sys
+            lim = sys.getrecursionlimit()
             try:
+                sys.setrecursionlimit(12000)     # the reference builder recurses once per tree level (the library call above ran under the normal limit)
                 refhm.build_hashmap(model, n, lambda v: (self._vbits(st, v), self._vrefs(st, v)))
             except RCellError:
                 ctx.count('carve-out:unrepresentable')
                 return
-            self.V(ctx, 'serialise-fails', 'serialize', 'width-%s' % _wclass(n), 'serialize() of %d keys of width %d raised %r' % (len(model), n, cell))
+            finally:
+                sys.setrecursionlimit(lim)
+            self.V(ctx, 'serialise-fails', 'serialize', 'width-%s%s' % (_wclass(n), dk), 'serialize() of %d keys of width %d raised %r' % (len(model), n, cell))
             return
         ctx.evaluated(1)
         want = sorted(model.items())
@@ -352,7 +381,7 @@ class DictWorld(HistoryWorld):
         for route in op['routes']:
             ok, got = call(self._parse, st, cell, route, dz)
             if not ok:
-                self.V(ctx, 'parse-fails', route, 'width-%s' % _wclass(n), 'parsing the serialised map (%d keys, width %d) via %s raised %r' % (len(model), n, route, got))
+                self.V(ctx, 'parse-fails', route, 'width-%s%s' % (_wclass(n), dk), 'parsing the serialised map (%d keys, width %d) via %s raised %r' % (len(model), n, route, got))
                 return
             if got is None or sorted(got) != want:
                 self.V(ctx, 'roundtrip', route, 'width-%s/keys-%s' % (_wclass(n), _kclass(len(model))),
